@@ -126,15 +126,16 @@ Definition decoded_v2 (p p0 : packet) : packet :=
            (match p_refers p with [] => p_refers p0 | _ => p_refers p end)
            (match body_bytes (p_body p) with [] => p_body p0 | _ => decoded_body p end).
 
-Theorem roundtrip_v2 thr has_c p n ws p' s rest p0 :
+Theorem roundtrip_v2 thr has_c hd p n ws p' s rest p0 :
+  (has_c = true -> hd = true) ->
   wf_packet p -> clean_flags p ->
   write_v2 enc zip thr has_c p = mkWres (Some n) ws p' ->
   concat s = concat ws ++ rest ->
-  let r := read_packet_v2 dec unzip has_c s p0 in
+  let r := read_packet_v2 dec unzip hd s p0 in
   r_out r = Ok (decoded_v2 p p0) /\ concat (r_rest r) = rest
   /\ r_allocs r = [n - hs2] /\ r_reads r = [hs2; n - hs2].
 Proof.
-  intros W Hc Hw Hs r. subst r.
+  intros Himp W Hc Hw Hs r. subst r.
   pose proof (write_v2_form enc zip thr has_c p) as F. rewrite Hw in F.
   destruct (marshal_body enc zip thr has_c p) as [b fl] eqn:M. cbv zeta in F.
   destruct (max_u8 <? lenN (p_refers p)) eqn:Hrefs; [discriminate|]. apply N.ltb_ge in Hrefs.
@@ -198,11 +199,11 @@ Proof.
   (* the reference list *)
   assert (Hwire : forall q, p_flag q = fl ->
     (if (0 <? lenN b) || negb (N.land (p_flag q) fMarshal =? 0)
-     then unmarshal_body dec unzip has_c b q else Ok q) =
+     then unmarshal_body dec unzip hd b q else Ok q) =
     Ok (mkPacket (p_cmd q) (p_seq q) (p_flag p) (p_typ q) (p_node q) (p_refers q)
                  (match body_bytes (p_body p) with [] => p_body q | _ => decoded_body p end))).
   { intros q Hq. destruct (N.ltb_spec 0 (lenN b)) as [Hb|Hb]; cbn [orb].
-    - destruct (unmarshal_marshal enc dec zip unzip dec_enc enc_len unzip_zip zip_nonempty thr has_c p b fl q) as [U HB];
+    - destruct (unmarshal_marshal enc dec zip unzip dec_enc enc_len unzip_zip zip_nonempty thr has_c hd p b fl q Himp) as [U HB];
         try assumption; [apply W|].
       rewrite U. unfold set_body, set_flag. cbn [p_cmd p_seq p_flag p_typ p_node p_refers p_body].
       destruct (body_bytes (p_body p)); [cbn in HB; lia|reflexivity].
